@@ -76,6 +76,11 @@ pub fn run<A: Cx>(d: &mut Drv<A>, scale: usize) {
                     let disp = o["v"]["disp"].clone();
                     let e2 = *d.rng.pick(&STR_ENTRIES);
                     d.emit(json!({"op": "parse", "dst": 8 + dst % 4, "c": A::NAME, "entry": e2, "bytes": disp}));
+                    if d.rng.chance(1, 3) {
+                        let via = *d.rng.pick(&["seq_display", "seq_into_string", "refseq_into_string", "display", "to_string", "string_from", "chars"]);
+                        let src = if via.starts_with("seq") || via.starts_with("refseq") { whole(dst) } else { d.rand_src(dst) };
+                        d.emit(json!({"op": "str", "src": src, "via": via}));
+                    }
                     if d.rng.chance(1, 4) {
                         let n = d.len(dst);
                         let g: Vec<usize> = vec![0, n / 2, n.saturating_sub(1), n, n + 1];
